@@ -67,7 +67,7 @@ def ctarget(t):
 def cpat(p):
     k = p[0]
     if k == "pwild":
-        return "PWild"
+        return f"(PWild {copt(p[1] if len(p) > 1 else None, chint)})"
     if k == "pnull":
         return "PNull"
     if k == "pbool":
@@ -237,7 +237,7 @@ def ktarget(t, top=True):
 def kpat(p):
     k = p[0]
     if k == "pwild":
-        return "_"
+        return "_" + (f": {khint(p[1])}" if len(p) > 1 and p[1] else "")
     if k == "pnull":
         return "null"
     if k == "pbool":
@@ -1033,7 +1033,8 @@ class MatchGen(Gen):
         if c < 3:
             return ("pint", self.pick([0, 1, 2, 42]))
         if c == 3:
-            return ("pwild",)
+            return ("pwild", self.pick([None, None, ("Number", False), ("String", False), ("Tuple", False), ("Bool", False),
+                                        ("Null", False), ("List", False), ("Map", False), ("Number", True)]))
         if c < 6:
             x = self.fresh("any")
             binds.append(x)
@@ -1066,17 +1067,24 @@ class MatchGen(Gen):
                 binds.append(x)
                 out.append((k, x))
             return ("pmap", out)
-        return ("pwild",)
+        return ("pwild", None)
 
     def match_expr(self, subject):
         arms = []
         for i in range(1 + self.r.below(4)):
             binds = []
             alts = [[self.pat(2, binds)]]
-            if self.chance(1, 6):
-                alts.append([self.pick([("pint", 42), ("pnull",), ("ptuple", [("pwild",)]), ("pstr", "a")])])
-                binds = []          # bindings differ between alternatives: do not observe them
+            if self.chance(1, 3):
+                # or-alternatives (no bindings, since they differ between alternatives); 2-3 of them,
+                # typed wildcards and nested patterns included
+                for _ in range(1 + self.r.below(2)):
+                    extra = []
+                    alts.append([self.pick([("pint", 42), ("pnull",), ("ptuple", [("pwild", None)]), ("pstr", "a"),
+                                            self.pat(2, extra), self.pat(1, extra),
+                                            ("pwild", self.pick([("Number", False), ("String", False), ("Tuple", False)]))])])
+                binds = []
                 alts = [[strip_binds(a[0])] for a in alts]
+                self.r.below(2) and alts.reverse()
             guard = None
             if binds and self.chance(1, 4):
                 guard = ("cmp", ("id", binds[0]), [("!=", ("int", 1))])
@@ -1121,13 +1129,13 @@ def flatten_targets(ts):
 def strip_binds(p):
     k = p[0]
     if k == "pid":
-        return ("pwild",)
+        return ("pwild", p[2])        # keeps the type hint: `x: T` -> `_: T`
     if k == "ptuple":
         return ("ptuple", [strip_binds(x) for x in p[1]])
     if k == "prest":
         return ("prest", [strip_binds(x) for x in p[1]], None, [strip_binds(x) for x in p[3]])
     if k == "pmap":
-        return ("pwild",)
+        return ("pwild", None)
     return p
 
 
